@@ -207,7 +207,7 @@ func TestC17(t *testing.T) {
 	{
 		mr, _ := gmreg.NewGoMetricsMetricRegistry(gometrics.NewRegistry(), "", "p", time.Millisecond)
 		run("gometrics-registry", func(i int) { mr.RegisterDistribution(fmt.Sprint("d", i%5)).AddSample(1) }, func(i int) { mr.RegisterTiming(fmt.Sprint("t", i%5)).AddSample(1) },
-			func(i int) { mr.RegisterCount(fmt.Sprint("c", i%5)).AddSample(1) }, func(i int) { mr.RegisterGauge(fmt.Sprint("g", i%5), func() (float64, bool) { return 1, true }) },
+			func(i int) { mr.RegisterCount(fmt.Sprint("c", i%5)).AddSample(1) }, func(i int) { mr.RegisterGauge(fmt.Sprint("g", i%3000), func() (float64, bool) { return 1, true }) },
 			func(i int) {
 				if i%2 == 0 {
 					mr.Start()
@@ -220,7 +220,7 @@ func TestC17(t *testing.T) {
 	{
 		if mr, err := ddreg.NewMetricRegistry("127.0.0.1:18125", "p", time.Millisecond); err == nil {
 			run("datadog-registry", func(i int) { mr.RegisterDistribution(fmt.Sprint("d", i%5)).AddSample(1) }, func(i int) { mr.RegisterTiming(fmt.Sprint("t", i%5)).AddSample(1) },
-				func(i int) { mr.RegisterCount(fmt.Sprint("c", i%5)).AddSample(1) }, func(i int) { mr.RegisterGauge(fmt.Sprint("g", i%5), func() (float64, bool) { return 1, true }) },
+				func(i int) { mr.RegisterCount(fmt.Sprint("c", i%5)).AddSample(1) }, func(i int) { mr.RegisterGauge(fmt.Sprint("g", i%3000), func() (float64, bool) { return 1, true }) },
 				func(i int) {
 					if i%2 == 0 {
 						mr.Start()
